@@ -45,6 +45,7 @@ void harness(void) {
 	VCOVER(r.nseg == VM && b.nseg == VM && b.scheme.len > 0 && r.scheme.len < 0 && r.hostkind == VU_HK_NONE, "merge of two VM-segment paths");
 	VCOVER(b.hostkind == VU_HK_IP6 && r.hostkind == VU_HK_NONE && r.scheme.len < 0 && b.scheme.len > 0, "authority with IPv6 inherited from base");
 
+	VCOVER_END;
 	ret = URI_FUNC(AddBaseUriExMm)(&dest, &ur, &ub, compat ? URI_RESOLVE_IDENTICAL_SCHEME_COMPAT : URI_RESOLVE_STRICTLY, &vmm);
 
 	VBOUND(g_allocs <= VMM_MAXREQ, "at most 64 allocation requests per call");
@@ -53,7 +54,7 @@ void harness(void) {
 		VPOST("C06", ret == URI_ERROR_ADDBASE_REL_BASE, "AddBaseUri: base without scheme => URI_ERROR_ADDBASE_REL_BASE");
 		VPOST("C06,C13", g_allocs == 0, "AddBaseUri: relative base rejected before anything is allocated");
 	} else if (g_failed > 0) {
-		VCOVER(g_failed > 0 && g_allocs >= 3, "third allocation request refused or later");
+		VCOVER_POST(g_failed > 0 && g_allocs >= 3, "third allocation request refused or later");
 		VPOST("C14", ret == URI_ERROR_MALLOC, "AddBaseUri: a refused allocation request => URI_ERROR_MALLOC");
 	} else {
 		VPOST("C06,C14", ret == URI_SUCCESS, "AddBaseUri: absolute base, no allocation failure => URI_SUCCESS");
@@ -79,7 +80,7 @@ void harness(void) {
 			(KF_C06_UNROOTED_EMPTY_FIRST && unrooted_bad) || (KF_C06_DSLASH_NO_GUARD && dslash_raw),
 			sv_reparse_safe(&vd), "AddBaseUri: result text is read back with the same path (no '//' start without authority, no unrooted path written with a leading '/')",
 			"C07-resolve-path-with-empty-first-segment");
-		VCOVER(vd.path.n == 2 * VM - 1, "result path of 2*VM-1 segments");
+		VCOVER_POST(vd.path.n == 2 * VM - 1, "result path of 2*VM-1 segments");
 		/* IP address bytes are a private copy */
 		VPOST("C06,C12", dest.hostData.ip4 == NULL || (dest.hostData.ip4 != ur.hostData.ip4 && dest.hostData.ip4 != ub.hostData.ip4),
 			"AddBaseUri: IPv4 bytes are copied, not shared");
